@@ -1,8 +1,9 @@
 \* C17, thorough tier: pairwise cover + full factorial over CubeFactors + seeded rows + evolutions.
 \* Seed is overwritten by the harness (VERIF_SEED).  -workers 1 (EmitGen prints every Generate step).
 \* Constants: Extra = 120 seeded rows, Cube = full factorial over the 5 CubeFactors (32 rows), chains of 3
-\* Generate steps from every 4th cover row.  Measured: 166 cover rows + 7 probe rows, 237 Generate steps,
-\* 474 distinct states, ~3 s.
+\* Generate steps from every 4th cover row, Repeat = 3 Generate steps (unchanged input) in the directory of every
+\* other cover row with autobindModel.  Measured before Again / the 8th probe: 166 cover rows + 7 probe rows,
+\* 237 Generate steps, 474 distinct states, ~3 s.
 CONSTANTS
   Seed = 1
   Extra = 120
